@@ -23,3 +23,84 @@ def classifiers_for(pid):
         if pid in f.get("properties", [f.get("property")]) and f["id"] in PREDICATES:
             out.append((f, PREDICATES[f["id"]]))
     return out
+
+
+# ----------------------------------------------------------------------------------------
+def _t(v):
+    return "".join(chr(x) for x in v)
+
+
+def _split(w):
+    """(scheme, authority, path, rest) of a reference text (RFC 3986 appendix B)."""
+    rest = ""
+    for d in "?#":
+        i = w.find(d)
+        if i >= 0:
+            w, rest = w[:i], w[i:] + rest if False else w[i:]
+            break
+    scheme = None
+    i = w.find(":")
+    if i > 0 and "/" not in w[:i]:
+        scheme, w = w[:i], w[i + 1:]
+    auth = None
+    if w.startswith("//"):
+        r = w[2:]
+        j = r.find("/")
+        auth, w = (r, "") if j < 0 else (r[:j], r[j:])
+    return scheme, auth, w, rest
+
+
+def _collapse(w):
+    s, a, p, rest = _split(w)
+    while "//" in p:
+        p = p.replace("//", "/")
+    # a leading "." shield in front of a collapsed empty segment
+    for pre in ("/./", "./"):
+        if p.startswith(pre):
+            p = p[len(pre) - 1:] if pre == "/./" else p[2:]
+    return (s, a, p.rstrip("/") or p[:1], rest)
+
+
+@classifier("resolve-merge-loses-empty-segments")
+def _merge_empty(case, fail):
+    if case.get("k") == "resolve":
+        ref = _t(case["ref"])
+    elif case.get("k") == "edit" and case.get("op") == "resolve":
+        ref = _t(case["pre"])
+    else:
+        return False
+    s, a, p, _ = _split(ref)
+    if s is not None or a is not None or p == "" or p.startswith("/"):
+        return False            # not the merge branch
+    if "expected_one_of" not in fail:
+        if fail.get("what") in ("all_entry_points_agree", "families_agree"):
+            return False
+        return False
+    obs = fail["observed"]
+    return any(_collapse(obs) == _collapse(e) and len(obs) < len(e) for e in fail["expected_one_of"])
+
+
+@classifier("pct-str-view-panics-on-ill-formed-utf8")
+def _pct_panic(case, fail):
+    return (case.get("k") == "pct" and case.get("utf8") is False and "panic" in fail
+            and fail.get("what") in ("chars", "len", "decode", "illformed.eq_str"))
+
+
+def _has_overlong(b):
+    """an overlong UTF-8 sequence: C0/C1 lead, E0 followed by 80..9F, F0 followed by 80..8F"""
+    for i, x in enumerate(b):
+        nxt = b[i + 1] if i + 1 < len(b) else None
+        if x in (0xC0, 0xC1):
+            return True
+        if x == 0xE0 and nxt is not None and 0x80 <= nxt <= 0x9F:
+            return True
+        if x == 0xF0 and nxt is not None and 0x80 <= nxt <= 0x8F:
+            return True
+    return False
+
+
+@classifier("pct-str-overlong-equated")
+def _pct_overlong(case, fail):
+    b = case.get("bytes") or []
+    return (case.get("k") == "pct" and case.get("utf8") is False and fail.get("what") == "illformed.eq_str"
+            and fail.get("observed") is True and _has_overlong(b))
